@@ -31,6 +31,13 @@ m = {
     "not_applicable": [],
     "notes": "Every check: (1) rebuilds the harness/erg from /repo's working tree, (2) regenerates coq/gen tables and re-checks the property theorems (+ Print Assumptions audit, forbidden-construct grep), (3) runs the model/implementation correspondence, (4) on any break searches for a failing input with the extracted judge. See DESIGN.md.",
 }
+CATS = ["exploration", "fault_enumeration", "model_checking", "proof", "translation_validation", "other"]
+def cat(c):
+    k = c["category"].strip().lower()
+    for x in CATS:
+        if k == x:
+            return x
+    return "proof" if k.startswith("proof") else "other"
 for pid in props:
     if pid in CHECKS:
         c = CHECKS[pid]
@@ -41,7 +48,7 @@ for pid in props:
             "evidence_file": "/verif/evidence/%s.json" % pid,
             "replay_cmd_template": "python3 /verif/vp.py replay %s --replay {path}" % pid,
             "engine": "coq",
-            "level_claimed": {"category": c["category"], "text": c["text"], "design_ref": c["design"]},
+            "level_claimed": {"category": cat(c), "text": (c["text"] if cat(c) == c["category"] else "[%s] %s" % (c["category"], c["text"])), "design_ref": c.get("design", "DESIGN.md")},
             "level_note": c["note"],
             "technique": c["technique"],
         })
